@@ -1,6 +1,7 @@
 package harness
 
 import (
+	"math"
 	"fmt"
 	"sort"
 	"strconv"
@@ -224,7 +225,7 @@ func (s *SysSpec) Render() map[string]string {
 		// ${} indirection for plain attribute values
 		for i := range kvs {
 			k := kvs[i].k
-			if k == "type" || strings.HasSuffix(k, ".type") || strings.HasSuffix(k, ".ref") || k == "tags" {
+			if k == "type" || strings.HasSuffix(k, ".type") || strings.HasSuffix(k, ".ref") {
 				continue
 			}
 			if st.Indirect&(1<<uint(indirect%32)) != 0 {
@@ -270,12 +271,15 @@ func (s *SysSpec) Render() map[string]string {
 var levelCodes = map[string]int32{
 	"NONE": 0, "TRACE": 100, "DEBUG": 200, "INFO": 300, "WARN": 400, "ERROR": 500, "PANIC": 600, "FATAL": 700, "MAX": 999,
 	"VERBOSE": 50, "NOTICE": 350, "AUDIT": 450, "CRIT": 650, "TOP": 998,
+	// user-registered corner cases: the lowest code an int32 can hold (a log4j-style "ALL"),
+	// and second names for codes that already have one (a built-in's and a custom level's)
+	"ALL": math.MinInt32, "NOTE": 300, "REVIEW": 450,
 }
 
 var customLevels = map[string]log.Level{}
 
 func init() {
-	for _, n := range []string{"VERBOSE", "NOTICE", "AUDIT", "CRIT", "TOP"} {
+	for _, n := range []string{"VERBOSE", "NOTICE", "AUDIT", "CRIT", "TOP", "ALL", "NOTE", "REVIEW"} {
 		customLevels[n] = log.RegisterLevel(levelCodes[n], strings.ToLower(n))
 	}
 }
@@ -285,7 +289,12 @@ var levelNames = func() []string {
 	for k := range levelCodes {
 		out = append(out, k)
 	}
-	sort.Slice(out, func(i, j int) bool { return levelCodes[out[i]] < levelCodes[out[j]] })
+	sort.Slice(out, func(i, j int) bool {
+		if levelCodes[out[i]] != levelCodes[out[j]] {
+			return levelCodes[out[i]] < levelCodes[out[j]]
+		}
+		return out[i] < out[j]
+	})
 	return out
 }()
 
